@@ -415,6 +415,13 @@ LIST_CASES = [      # (plain, written with braces / calls, expected visits)
      'print q_i end',
      'repeat in {b} and {a} as q_l with q_i from 1 to 2 begin print q_l '
      'print q_i end', ['B', 1, 'A', 2]),
+    # brackets round the call that is a routine's whole body
+    ('define q_say with q_x println q_x define q_h q_say 5 q_h',
+     'define q_say with q_x println q_x define q_h [q_say 5] q_h', [5]),
+    # braces round the single constant of a macro
+    ('define q_m 5 println q_m', 'define q_m {5} println q_m', [5]),
+    ('define q_m "A" on q_m println q_m', 'define q_m {"A"} on q_m println q_m',
+     ['A']),
 ]
 
 
@@ -438,7 +445,8 @@ def check_list_values(acc):
             acc.fail('list-values:plain', '{} visited {} expected {}'.format(
                 plain, outs[0], expected), case)
         elif outs[1] != expected:
-            acc.fail('list-values:' + ('call' if '[' in written else 'braces'),
+            acc.fail('list-values:' + ('call' if '[' in written else 'braces')
+                     + (':define' if written.startswith('define') else ''),
                      '{} visited {}, the same list written plainly visits {}'
                      .format(written, outs[1], expected), case)
 
